@@ -5,6 +5,7 @@ mod engine;
 mod model;
 mod ops;
 mod props;
+mod seq;
 mod world;
 
 use engine::*;
